@@ -236,6 +236,10 @@ def check_2d(rname, nx, ny, res=None):
     return out
 
 
+# gentle slopes on a large mean value: the jumps between neighbours are 1e-4..1e-8 of the values themselves
+GENTLE = [(300.0, 0.05), (1.0, -1e-5), (-1e4, 1e-3)]
+
+
 def shard_profiles(arg):
     rname, n = arg
     res = core.Res()
@@ -245,7 +249,8 @@ def shard_profiles(arg):
     shared = space.recon(rname)
     hist = []
     for wv0 in space.width_vectors(n):
-      for scale, profiles in ((1.0, list(itertools.product((0.0, 2.0, 5.0), (0.0, 1.0, -3.0)))), (0.3, [(0.1, 0.7), (-1.3, -0.9)])):
+      for scale, profiles in ((1.0, list(itertools.product((0.0, 2.0, 5.0), (0.0, 1.0, -3.0)))), (0.3, [(0.1, 0.7), (-1.3, -0.9)]),
+                              (1.0, GENTLE), (0.3, GENTLE[:1])):
         wv = tuple(scale * x for x in wv0)      # 0.3: faces, centres and values are not dyadic, every operation rounds
         for a, b in profiles:
             if b != 0:
